@@ -11,13 +11,13 @@ use crate::props::state_signature;
 use crate::walparse::{EntryKind, Parsed, HDR};
 
 pub const SPECS: &[PropSpec] = &[
-    PropSpec { id: "C08", level: "exploration", quick_runs: 5_000, thorough_runs: 60_000,
+    PropSpec { id: "C08", level: "exploration", quick_runs: 5_000, thorough_runs: 30_000,
         rule: "per seeded history (delete/re-create, batches, multi-frame entries): the cleanly dropped image is overwritten in place 1-4 times (bit, byte, 2-64 B garbage/zero, whole block, multi-block; offsets aimed with an independent WAL parser at crc/len/type/payload edges/entry header/inner batch fields/block and file edges, 30% uniform), 30 damaged images per history in quick, 300 in thorough; oracle: open does not panic or hang, and if Ok every record is one that was appended to that queue, positions strictly increasing. Non-trivial: the damage changed bytes inside a delivered frame and open still returned Ok. Distinct: hash of (damage kinds, field class hit, frame type, open result).",
         assumptions: &["up to a CRC-32 collision (a failing case whose damaged frame still verifies is counted as crc_collisions, never seen so far)"] },
-    PropSpec { id: "C09", level: "exploration", quick_runs: 12_000, thorough_runs: 60_000,
+    PropSpec { id: "C09", level: "exploration", quick_runs: 12_000, thorough_runs: 200_000,
         rule: "per seeded history image: frames found by the independent parser are damaged one at a time, confined to the 4 CRC bytes or the payload (bit flip in CRC, first/last/random payload byte, payload garbage, payload zero); thorough: every frame x 6 variants, quick: up to 40 sampled frames x 2 variants; oracle: open is Ok and every retained record whose append entry is not the damaged one is recovered intact and in order. Non-trivial: the damaged entry is followed by >= 1 entry for the same queue or is a control entry. Distinct: hash of (entry kind, frame type, variant, position in block class, files).",
         assumptions: &["frame layout from an independent parser over the SimFs image"] },
-    PropSpec { id: "C10", level: "exploration", quick_runs: 16_000, thorough_runs: 100_000,
+    PropSpec { id: "C10", level: "exploration", quick_runs: 16_000, thorough_runs: 250_000,
         rule: "three generator classes: (a) valid image + 1-6 damage ops from {overwrite, zero, truncate to any length, remove, duplicate, transpose blocks/files, append garbage, stray files/dirs/symlinks incl. WAL-named}; (b) files of PRNG bytes / CRC-valid frames in PRNG order; (c) CRC-valid frames with adversarial entry bytes (unknown type, positions near u64::MAX, lengths past the end, non-UTF-8 names, decreasing positions, First without Last, 2000 empty frames). Oracle: open does not panic, stays within the fs step budget and a 20 s watchdog, peak heap <= 16 x image + 1 MiB (counting allocator), read accessors of an Ok log do not panic. Non-trivial: the damaged directory still has >= 1 readable WAL block. Distinct: hash of (class, damage kinds, open result).",
         assumptions: &["built with overflow checks and debug assertions on (arithmetic overflow counts as a panic)"] },
 ];
